@@ -70,10 +70,12 @@ def biPropDependsOn (g : G) (n p : Nat) : G :=
     let g2 := g1.setNode n { g1.node n with biSet := some id }
     g2.setNode p { g2.node p with biSet := some id }
   | some a, some b =>
-    -- set_union(*this->set, *node.set); node.biPropSet_ = this->set  (other members of b keep pointing to b)
-    let merged := unionSorted (g.biSets.getD a []) (g.biSets.getD b [])
-    let g1 := { g with biSets := g.biSets.set a merged }
-    g1.setNode p { g1.node p with biSet := some a }
+    -- repaired code: set_union(*this->set, *node.set) and every member of the absorbed set is repointed
+    if a = b then g else
+    let members := g.biSets.getD b []
+    let merged := unionSorted (g.biSets.getD a []) members
+    let g1 := { g with biSets := (g.biSets.set a merged).set b [] }
+    members.foldl (fun g m => g.setNode m { g.node m with biSet := some a }) g1
   | none, some b =>
     let g1 := { g with biSets := g.biSets.set b (insertSorted n (g.biSets.getD b [])) }
     g1.setNode n { g1.node n with biSet := some b }
@@ -166,7 +168,9 @@ def propLoop : Nat → G → List Nat → List Nat → G × List Nat
 /-- ForwardPropagator::operator() -/
 def forwardPropagate (g : G) : G :=
   let roots := (allNodes g).filter fun id => ¬ completed (g.node id)
-  let (g1, visited) := propLoop ((allNodes g).length + 1) g roots roots
+  -- repaired code: every incomplete node restarts from zero and is recounted by the visit below
+  let g0 := roots.foldl (fun g id => g.setNode id { g.node id with inc := 0 }) g
+  let (g1, visited) := propLoop ((allNodes g).length + 1) g0 roots roots
   if ¬ g.biProp then g1 else
   -- propagateIncompleteStateBidirectionally: every member of a touched set becomes incomplete …
   let groups := (visited.filterMap fun id => (g1.node id).biSet).eraseDups
